@@ -93,10 +93,13 @@ def apply(seq, op):
         g = seq.messages_abs() if name == "it_abs" else seq.messages_rel()
         try:
             for i, m in enumerate(g):
+                # the loop body may look at the other view before and/or after editing the message it was handed
+                if a["read"] in ("before", "both"):
+                    _ = seq.rel if name == "it_abs" else seq.abs
                 for idx, kind, val in a["edits"]:
                     if idx == i:
                         _edit(m, kind, val, name == "it_rel")
-                if a["read"]:
+                if a["read"] in (True, "after", "both"):
                     _ = seq.rel if name == "it_abs" else seq.abs
                 if a["brk"] is not None and i >= a["brk"]:
                     break
@@ -192,9 +195,9 @@ def op_strategy(names):
         "qnl": st.fixed_dictionaries({"vals": st.lists(st.sampled_from([2, 4, 6, 12, 24]), min_size=1, max_size=3),
                                       "dne": st.booleans()}),
         "qan": st.just({}),
-        "it_abs": st.fixed_dictionaries({"edits": _edits(), "read": st.sampled_from([False, False, True]),
+        "it_abs": st.fixed_dictionaries({"edits": _edits(), "read": st.sampled_from([False, False, "before", "after", "both"]),
                                          "brk": st.sampled_from([None, None, 0, 0, 1, 2])}),
-        "it_rel": st.fixed_dictionaries({"edits": _edits(), "read": st.sampled_from([False, False, True]),
+        "it_rel": st.fixed_dictionaries({"edits": _edits(), "read": st.sampled_from([False, False, "before", "after", "both"]),
                                          "brk": st.sampled_from([None, None, 0, 0, 1, 2])}),
         "read_abs": st.just({}), "read_rel": st.just({}), "refresh": st.just({}),
         "inval_abs": st.just({}), "inval_rel": st.just({}), "copy": st.just({}),
